@@ -190,6 +190,9 @@ type c34ledger struct {
 	lastFailed bool // the most recent report that carried data failed to send
 	consecFail bool // two report attempts in a row failed
 	anyFail    bool
+	// input classes that get their own double-count signature
+	delayedAck bool // a report was accepted and its ack arrived only after fake time had passed
+	toggled    bool // RecordUsage was switched off and on again
 	reports    int
 }
 
@@ -235,7 +238,14 @@ func (l *c34ledger) outcome(u c34usage, delivered bool) {
 	}
 	for _, s := range c34signals {
 		if l.sent[s] > l.growth[s] {
-			l.run.Violation("C34/"+l.unit+"/usage-double-counted",
+			sig := "C34/" + l.unit + "/usage-double-counted"
+			if l.delayedAck {
+				sig += "/after-delayed-ack"
+			}
+			if l.toggled {
+				sig += "/after-record-usage-off-on"
+			}
+			l.run.Violation(sig,
 				fmt.Sprintf("signal %s: successfully sent reports carry %d but the counter only grew by %d", s, l.sent[s], l.growth[s]), l.witness("signal", string(s)))
 		}
 	}
@@ -334,9 +344,10 @@ func c34trackerAttempt(l *c34ledger, u *usageTracker, clock clockwork.Clock, fai
 type c34client struct {
 	client.OpAMPClient // nil: any other method is a harness bug and panics
 	mu                 sync.Mutex
-	script             []string // per SendCustomMessage call: "ok" | "pending" | "err"; exhausted => "ok"
-	handed             [][]byte // every payload passed in
-	delivered          [][]byte // payloads of calls that returned nil error
+	script             []string      // per SendCustomMessage call: "ok" | "pending" | "err"; exhausted => "ok"
+	ack                chan struct{} // accepted message whose "sent" channel the driver has not closed yet
+	handed             [][]byte      // every payload passed in
+	delivered          [][]byte      // payloads of calls that returned nil error
 	async              bool
 }
 
@@ -363,6 +374,11 @@ func (c *c34client) SendCustomMessage(msg *protobufs.CustomMessage) (chan struct
 	case "pending":
 		done() // the previous message completes
 		return ch, types.ErrCustomMessagePending
+	case "ok-delayed":
+		// accepted; the driver closes the channel later (after advancing the fake clock)
+		c.delivered = append(c.delivered, data)
+		c.ack = ch
+		return ch, nil
 	}
 	c.delivered = append(c.delivered, data)
 	done()
@@ -379,6 +395,22 @@ func (c *c34client) take() (handed, delivered [][]byte) {
 	return
 }
 
+func (c *c34client) outstanding() bool {
+	c.mu.Lock()
+	defer c.mu.Unlock()
+	return c.ack != nil
+}
+
+// releaseAck closes the "sent" channel of the accepted message, if one is outstanding.
+func (c *c34client) releaseAck() {
+	c.mu.Lock()
+	defer c.mu.Unlock()
+	if c.ack != nil {
+		close(c.ack)
+		c.ack = nil
+	}
+}
+
 func (c *c34client) setScript(s ...string) {
 	c.mu.Lock()
 	c.script = s
@@ -390,6 +422,7 @@ var c34outcomes = map[string][]string{
 	"pending-then-sent":   {"pending", "ok"},
 	"failed":              {"err"},
 	"pending-then-failed": {"pending", "err"},
+	"sent-ack-delayed":    {"ok-delayed"},
 }
 
 func c34send(run *verifkit.Run, rng *verifkit.Rand, sample bool) {
@@ -403,7 +436,44 @@ func c34send(run *verifkit.Run, rng *verifkit.Rand, sample bool) {
 	steps := rng.Range(4, 40)
 	attempt := func(outcome string) {
 		cl.setScript(c34outcomes[outcome]...)
-		err := c34agentSend(a)
+		var err error
+		if outcome == "sent-ack-delayed" {
+			// the client accepts the message; its "sent" channel is closed only after D of fake
+			// time (up to several report periods) has passed while sendUsageReport waits
+			errc := make(chan error, 1)
+			go func() { errc <- c34agentSend(a) }()
+			if !c34wait(func() bool { return cl.outstanding() || len(errc) > 0 }) {
+				run.Inconclusive("send: sendUsageReport neither returned nor reached the client")
+				return
+			}
+			if cl.outstanding() {
+				d := time.Duration(verifkit.Pick(rng, 1, 10, 29, 30, 31, 45, 60, 90)) * time.Second
+				for i := 0; i < 100; i++ {
+					runtime.Gosched() // let the sender reach its wait (sensitivity only, no verdict depends on it)
+				}
+				for left := d; left > 0; left -= 5 * time.Second {
+					step := 5 * time.Second
+					if left < step {
+						step = left
+					}
+					clock.Advance(step)
+					for i := 0; i < 20; i++ {
+						runtime.Gosched()
+					}
+				}
+				cl.releaseAck()
+				l.delayedAck = true
+				l.hist = append(l.hist, c34step{Op: "ack of the accepted report arrives", Report: "after " + d.String()})
+			}
+			select {
+			case err = <-errc:
+			case <-time.After(20 * time.Second): // watchdog only
+				run.Inconclusive("send: sendUsageReport did not return after the ack")
+				return
+			}
+		} else {
+			err = c34agentSend(a)
+		}
 		handed, delivered := cl.take()
 		st := c34step{Op: "report", Outcome: outcome}
 		if len(handed) == 0 {
@@ -441,7 +511,7 @@ func c34send(run *verifkit.Run, rng *verifkit.Rand, sample bool) {
 			l.kinds.WriteByte('r')
 			continue
 		}
-		outcome := verifkit.Pick(rng, "sent", "pending-then-sent")
+		outcome := verifkit.Pick(rng, "sent", "sent", "pending-then-sent", "pending-then-sent", "sent-ack-delayed")
 		if rng.Chance(pFail) && !(noConsec && l.lastFailed) {
 			outcome = verifkit.Pick(rng, "failed", "pending-then-failed")
 		}
@@ -535,6 +605,48 @@ func (c *c34clock) advance(d time.Duration) bool {
 	return true
 }
 
+// advanceStall is advance for the loop driver with delayed acks: the ticker goroutine `skip`
+// (parked in sendUsageReport on an outstanding ack) is not waited for - skippedDue reports
+// whether its tick fell into the step - and a goroutine that does not come back to its select
+// because it just started waiting for an ack (outstanding() turned true) is returned as stuck.
+func (c *c34clock) advanceStall(d time.Duration, skip *c34ticker, outstanding func() bool) (ok bool, stuck *c34ticker, skippedDue bool) {
+	end := c.FakeClock.Now().Add(d)
+	type exp struct {
+		t    *c34ticker
+		want int64
+	}
+	var due []exp
+	for _, t := range c.list() {
+		if !t.next.After(end) {
+			t.next = t.next.Add(t.period)
+			if t == skip {
+				skippedDue = true
+				continue
+			}
+			due = append(due, exp{t, t.entries.Load() + 1})
+		}
+	}
+	c.FakeClock.Advance(d)
+	for _, e := range due {
+		e := e
+		if !c34wait(func() bool { return e.t.entries.Load() >= e.want || (skip == nil && outstanding()) }) {
+			return false, nil, skippedDue
+		}
+		if e.t.entries.Load() < e.want {
+			stuck = e.t
+		}
+	}
+	return true, stuck, skippedDue
+}
+
+func c34setRecordUsage(a *Agent, on bool) {
+	cfg := a.effectiveConfig.(*config.MockConfig)
+	v := config.DefaultTrue(on)
+	cfg.Mux.Lock()
+	cfg.GetOpAmpConfigVal.RecordUsage = &v
+	cfg.Mux.Unlock()
+}
+
 func c34loop(run *verifkit.Run, rng *verifkit.Rand, sample bool) {
 	l := c34newLedger(run, "loop")
 	clock := &c34clock{FakeClock: clockwork.NewFakeClock()}
@@ -581,9 +693,7 @@ func c34loop(run *verifkit.Run, rng *verifkit.Rand, sample bool) {
 		l.hist = append(l.hist, st)
 		l.outcome(usage, ok)
 	}
-	secs := rng.Range(20, 120)
-	for s := 0; s < secs; s++ {
-		// counters grow between ticks
+	grow := func() {
 		if rng.Chance(0.5) {
 			c := c34counters[rng.Intn(len(c34counters))]
 			g := c34growths[rng.Intn(len(c34growths)-1)] // keep Count arguments modest
@@ -592,17 +702,81 @@ func c34loop(run *verifkit.Run, rng *verifkit.Rand, sample bool) {
 			l.hist = append(l.hist, c34step{Op: "count " + c.name, Signal: string(c.signal), Growth: g, Reading: l.growth[c.signal]})
 			l.kinds.WriteByte('r')
 		}
+	}
+	stuckMsg := "loop: a ticker goroutine did not come back to its select"
+	secs := rng.Range(20, 120)
+	recordingOffFor := 0 // seconds left with RecordUsage switched off
+	pToggle := verifkit.Pick(rng, 0.0, 0.02, 0.05)
+	pDelay := verifkit.Pick(rng, 0.0, 0.1, 0.25)
+	for s := 0; s < secs; s++ {
+		// counters grow between ticks (also while usage recording is off)
+		grow()
+		// RecordUsage: on -> off for at least one health period -> on. The unchanged agent
+		// simply takes no readings while it is off; the next reading after re-enabling carries
+		// the whole delta, so conservation is unchanged.
+		if recordingOffFor > 0 {
+			recordingOffFor--
+			if recordingOffFor == 0 {
+				c34setRecordUsage(a, true)
+				l.hist = append(l.hist, c34step{Op: "RecordUsage on"})
+				l.kinds.WriteByte('+')
+			}
+		} else if rng.Chance(pToggle) {
+			recordingOffFor = int(hEvery/time.Second) + rng.Range(1, 2*int(hEvery/time.Second))
+			c34setRecordUsage(a, false)
+			l.toggled = true
+			l.hist = append(l.hist, c34step{Op: "RecordUsage off"})
+			l.kinds.WriteByte('-')
+		}
 		// script the outcome of the next report attempt (at most one per second of virtual time)
 		outcome := verifkit.Pick(rng, "sent", "pending-then-sent")
 		if rng.Chance(pFail) && !(noConsec && l.lastFailed) {
 			outcome = verifkit.Pick(rng, "failed", "pending-then-failed")
+		} else if rng.Chance(pDelay) {
+			outcome = "sent-ack-delayed"
 		}
 		cl.setScript(c34outcomes[outcome]...)
-		if !clock.advance(time.Second) {
-			run.Inconclusive("loop: a ticker goroutine did not come back to its select")
+		ok, stuck, _ := clock.advanceStall(time.Second, nil, cl.outstanding)
+		if !ok {
+			run.Inconclusive(stuckMsg)
 			return
 		}
 		collect()
+		if stuck == nil {
+			continue
+		}
+		// the report goroutine handed a report to the client, which accepted it, and now waits
+		// for the ack: keep the virtual time running (readings continue) for D, then ack
+		d := rng.Range(1, 3*int(rEvery/time.Second)+5)
+		base := stuck.entries.Load()
+		buffered := int64(0)
+		l.hist = append(l.hist, c34step{Op: "report accepted, ack outstanding", Report: fmt.Sprintf("for %ds", d)})
+		l.kinds.WriteByte('A')
+		l.delayedAck = true
+		for i := 0; i < d; i++ {
+			grow()
+			cl.setScript() // anything sent meanwhile (there should be nothing) would be accepted at once
+			ok, _, due := clock.advanceStall(time.Second, stuck, cl.outstanding)
+			if !ok {
+				run.Inconclusive(stuckMsg)
+				return
+			}
+			if due {
+				buffered = 1 // the ticker keeps one tick for the parked goroutine, further ones are dropped
+			}
+			collect()
+		}
+		cl.releaseAck()
+		want := base + 1 + buffered
+		if !c34wait(func() bool { return stuck.entries.Load() >= want }) {
+			run.Inconclusive("loop: the report goroutine did not come back to its select after the ack")
+			return
+		}
+		collect()
+	}
+	if recordingOffFor > 0 {
+		c34setRecordUsage(a, true)
+		l.hist = append(l.hist, c34step{Op: "RecordUsage on"})
 	}
 	// final flush: no more growth, every attempt succeeds; two report periods after a
 	// health period make sure the last reading was taken and reported
